@@ -243,12 +243,16 @@ class DirectoryComputation(MessagePassingComputation):
                              msg.replica, sender)
             self.directory.subscribe_to_replicas(sender, msg.replica)
             try:
-                for agt in self.directory.discovery.replica_agents(msg.replica):
-                    self.notify_replica_registered(
-                        sender, msg.replica, agt)
+                agts = self.directory.discovery.replica_agents(msg.replica)
             except UnknownComputation:
+                # The computation may be momentarily unregistered (e.g. it is
+                # migrating): the replicas recorded for it are still there.
                 self.logger.warning('Subscriber for replicas of unknown '
                                     'commputation ' + msg.replica)
+                agts = self.directory.discovery._replicas_data.get(
+                    msg.replica, [])
+            for agt in list(agts):
+                self.notify_replica_registered(sender, msg.replica, agt)
         else:
             self.logger.info('UnSubscribe for replica %s from %s',
                              msg.replica, sender)
